@@ -106,6 +106,33 @@ def gen_cases(ctx, n):
     return cases, ops
 
 
+def has_apostrophe_constant(q):
+    """the class of C02-memo-key-collision: a FILTER constant containing `'`"""
+    found = [False]
+
+    def ex(e):
+        if e[0] == "cmp":
+            if e[3][0] == "c" and "'" in e[3][1]:
+                found[0] = True
+        elif e[0] == "not":
+            ex(e[1])
+        else:
+            ex(e[1]); ex(e[2])
+
+    def walk(e):
+        if e[0] in ("group", "union"):
+            for x in e[1]:
+                walk(x)
+        elif e[0] == "graph":
+            walk(e[2])
+        elif e[0] == "sub":
+            walk(e[1]["where"])
+        elif e[0] == "filter":
+            ex(e[1])
+    walk(q["where"])
+    return found[0]
+
+
 def driver_case(c):
     return {k: c[k] for k in ("ds_before", "ds_update", "query", "kinds", "max_assign", "seed")}
 
@@ -315,6 +342,22 @@ def replay_known(ctx, binpath):
     for k in ctx.known_findings():
         w = k["witness"]
         q, ds = w["q"], w["ds"]
+        if w.get("kind") == "memo-collision":
+            c = {"ds_before": ds, "ds_update": {"default": [], "named": []}, "query": L.print_query(q, None, False), "kinds": ["fresh"], "max_assign": 3, "seed": 1}
+            im = ctx.run_impl(binpath, [c])[0]
+            ctx.count()
+            want = pattern_solutions(ds, q)
+            got = im.get("results", [None])[0]
+            ok = None
+            try:
+                ok = C1.run_model_retry(ctx, ["implements_run %s %s" % (L.cquery(q), L.jpop(im["plans"]["fresh"]))], REQ + ["KV.Sparql.Lowering", "KV.Sparql.PlanEquiv"])[0]
+            except Exception as ex:       # noqa
+                ok = "not rendered: %s" % ex
+            if got is not None and not L.mus_equal(got, want):
+                ctx.known(k["id"], "%s -- %s: %d solutions for %d; implementsb on the emitted plan = %s" % (k["what"], c["query"], len(got), len(want), ok))
+            else:
+                ctx.log("known finding %s no longer reproduces" % k["id"])
+            continue
         if w.get("kind") == "stats-overflow":
             c = {"ds_before": ds, "ds_update": {"default": [], "named": []}, "query": L.print_query(q, None, False), "kinds": ["fresh", w["stats"]], "max_assign": 3, "seed": 1}
             im = ctx.run_impl(binpath, [c])[0]
